@@ -371,6 +371,13 @@ ReadVerdict(E, O, ret, bc) ==
      ELSE IF Len(ret.order) > 0 /\ unsorted # {} THEN "not-sorted"
      ELSE IF Len(ret.order) > 0 /\ misplaced # {} THEN "wrong-slice"
      ELSE ""
+(* every cell that is a non-empty list of relationships, reversed *)
+RevRelLists(rows) ==
+  [i \in 1..Len(rows) |->
+     [c \in 1..Len(rows[i]) |->
+        LET v == rows[i][c] IN
+        IF v[1] = "list" /\ Len(v[2]) > 1 /\ (\A k \in 1..Len(v[2]) : v[2][k][1] = "rel")
+        THEN <<"list", Reverse(v[2])>> ELSE v]]
 ReadProp == IF Rec[l].kind = "read" THEN "C11" ELSE IF Meta.indexed THEN "C15" ELSE "C11"
 TRead ==
   /\ l <= Len(Rec) /\ Rec[l].ev = "case" /\ Rec[l].kind \in {"read", "idx"}
@@ -394,6 +401,8 @@ TRead ==
                           THEN "index-misses-rows" ELSE "index-adds-rows")
                   ELSE IF MultiPattern(q) /\ ReadVerdict(ResultBagU(gr, q, TRUE), Rows, q.ret, BagCols(q)) = ""
                        THEN "rel-uniqueness-only-within-one-pattern"
+                  ELSE IF ReadVerdict(E, RevRelLists(Rows), q.ret, BagCols(q)) = ""
+                       THEN "variable-length-relationship-list-reversed"
                   ELSE IF BoundMidNode(q) THEN "bound-node-in-the-middle-of-a-pattern"
                   ELSE IF HasParallel(gr) THEN "graph-has-parallel-relationships"
                   ELSE "none"
